@@ -214,6 +214,21 @@ def run(rep):
                           f'a handle to the child\'s stdin (local _{L}: {body.locals[L]}) taken in {fn} can still be alive when the child is waited for: the formatter never sees '
                           f'end-of-file on its input, so the call hangs', ok_detail=f'_{L} is dropped / moved before every wait')
     rep.floor('holders of the child stdin handle', n_d, 1)
+    # .. and its stdout is drained while it is waited for: with stdout piped, a bare `wait()` (or a `try_wait` loop) before the output has been read
+    # blocks for ever once the formatter has written more than the pipe buffer holds (64 KiB) - `wait_with_output()` reads while it waits
+    for fn, body in views:
+        piped_out = any(cname(t) == 'std::process::Command::stdout' for _, t in body.calls()) and any(cname(t) == 'std::process::Stdio::piped' for _, t in body.calls())
+        bare = [(b, t) for b, t in body.calls() if cname(t) in ('std::process::Child::wait', 'std::process::Child::try_wait')]
+        for b, t in bare:
+            dom_ = body.dominators()[b]
+            drained = any(method(cname(t2)) in ('read_to_end', 'read_to_string', 'copy', 'read_exact') and
+                          any('ChildStdout' in body.locals[l_] for l_ in [op_local(a_) for a_ in t2['args']] if l_ is not None)
+                          for b2, t2 in body.calls() if b2 in dom_ and b2 != b)
+            rep.check(not piped_out or drained, 'C19.d.stdout-drained', f'wait-before-read:{fn}', body.where(b),
+                      f'{cname(t).split("::")[-1]}() on the formatter child while its piped stdout has not been read: once the formatted text exceeds the pipe buffer the child blocks '
+                      f'writing and this call blocks waiting - generation hangs', ok_detail='stdout read before the wait')
+    if not any(cname(t) in ('std::process::Child::wait', 'std::process::Child::try_wait') for _, body in views for _, t in body.calls()):
+        rep.ok('C19.d.stdout-drained', 'no-bare-wait', '', 'the child is only waited for by wait_with_output(), which drains stdout while waiting')
     # ---- e: returned text is an identity image of the tokens or of the captured stdout -----------------------------
     n_e = 0
     for fn in sorted(F):
